@@ -205,6 +205,10 @@ def _uni_constructor_args(R):
     wl = [1.0, 2.0] * (len(x) // 2)
     m2 = U.GaussianKDE(weights=wl)
     R.twice('uni:kde(weights=list).fit', m2.fit, (x.copy(),), owned=(wl,), compare=False)
+    # a selecting wrapper that looks at a subsample is fitted on the caller's array itself
+    xs = x.copy()
+    sel = U.Univariate(selection_sample_size=10, candidates=[U.GaussianUnivariate, U.GammaUnivariate])
+    R.twice('uni:Univariate(selection_sample_size=10).fit(ndarray)', sel.fit, (xs,), compare=False)
     # truncation bounds handed over as (0-d / 1-element) arrays
     lo_a, hi_a = np.array(float(x.min()) - 1.0), np.array([float(x.max()) + 2.0])
     tg = U.TruncatedGaussian(minimum=lo_a, maximum=hi_a)
@@ -212,6 +216,18 @@ def _uni_constructor_args(R):
     R.twice('uni:truncated(bounds as ndarrays).cumulative_distribution', tg.cumulative_distribution,
             (np.quantile(x, [0.1, 0.5, 0.9]),), owned=(lo_a, hi_a))
     cands = [U.GammaUnivariate, U.GaussianKDE(bw_method=0.5), 'copulas.univariate.uniform.UniformUnivariate']
+    # ... including the constructor call itself
+    R.twice('uni:Univariate(candidates=list) constructor', lambda c: U.Univariate(candidates=c), (cands,), compare=False)
+    names_only = ['copulas.univariate.gaussian.GaussianUnivariate', 'copulas.univariate.beta.BetaUnivariate']
+    R.twice('uni:Univariate(candidates=names) constructor', lambda c: U.Univariate(candidates=c), (names_only,), compare=False)
+    R.twice('uni:Univariate(candidates=names).fit', lambda c, X: U.Univariate(candidates=c).fit(X), (names_only, x.copy()),
+            compare=False)
+    w3 = np.linspace(1.0, 2.0, len(x))
+    R.twice('uni:GaussianKDE(weights=ndarray) constructor', lambda w_: U.GaussianKDE(weights=w_), (w3,), compare=False)
+    from copulas.multivariate import GaussianMultivariate
+    dconf = {'a': U.GammaUnivariate, 'b': 'copulas.univariate.beta.BetaUnivariate', 'c': U.GaussianKDE(bw_method=0.3)}
+    R.twice('gm:GaussianMultivariate(distribution=dict) constructor', lambda d_: GaussianMultivariate(distribution=d_), (dconf,),
+            compare=False)
     m3 = U.Univariate(candidates=cands)
     R.twice('uni:Univariate(candidates=list).fit', m3.fit, (x.copy(),), owned=(cands,), compare=False)
     R.twice('uni:Univariate(candidates=list).sample', m3.sample, (4,), owned=(cands,), reseed=lambda: m3.set_random_state(3))
@@ -229,6 +245,12 @@ def _biv(R, fam):
         for cname, Xc in conts.items():
             R.twice(f'biv:select_copula({cname})', select_copula, (Xc,))
         return
+    base_res = {}
+    # a valid table whose margins are clearly NOT uniform (the fit only warns about that)
+    Xn = np.column_stack([X[:, 0] ** 3, X[:, 1] ** 2])
+    cn = Bivariate(copula_type=fam)
+    R.twice(f'biv:{fam}.fit(non-uniform margins)', cn.fit, (Xn,), compare=False)
+    R.twice('biv:select_copula(non-uniform margins)', select_copula, (Xn.copy(),))
     for cname, Xc in conts.items():
         c = Bivariate(copula_type=fam)
         R.twice(f'biv:{fam}.fit({cname})', c.fit, (Xc,), compare=False)
@@ -236,7 +258,13 @@ def _biv(R, fam):
         Pc = {'ndarray': P.copy(), 'view': np.column_stack([P[:, 0], P[:, 0], P[:, 1]])[:, ::2], 'read-only': P.copy()}
         Pc['read-only'].flags.writeable = False
         for meth in ('probability_density', 'cumulative_distribution', 'partial_derivative', 'log_probability_density'):
-            R.twice(f'biv:{fam}.{meth}({cname})', getattr(c, meth), (Pc[cname],))
+            res_ = R.twice(f'biv:{fam}.{meth}({cname})', getattr(c, meth), (Pc[cname],))
+            if cname == 'ndarray':
+                base_res[meth] = res_
+            elif res_ and base_res.get(meth) and not same_result(res_[0], base_res[meth][0]):
+                R.r.violation(f'C20:biv:{fam}.{meth}:{cname}-argument-differs', f'biv:{fam}.{meth} gives {_sh(res_[0])} for a '
+                              f'{cname} array and {_sh(base_res[meth][0])} for the same values in a plain writeable array',
+                              case=R.case)
         y = containers_1d(np.array([0.1, 0.5, 0.9]))[cname]
         v = containers_1d(np.array([0.3, 0.6, 0.8]))[cname]
         R.twice(f'biv:{fam}.percent_point({cname})', c.percent_point, (y, v))
@@ -318,8 +346,11 @@ def _vine(R, vtype):
     U = np.array([[0.2, 0.4, 0.6, 0.8]])
     ro = U.copy()
     ro.flags.writeable = False
-    R.twice(f'vine:{vtype}.get_likelihood(ndarray)', v.get_likelihood, (U.copy(),))
-    R.twice(f'vine:{vtype}.get_likelihood(read-only)', v.get_likelihood, (ro,))
+    rw_ = R.twice(f'vine:{vtype}.get_likelihood(ndarray)', v.get_likelihood, (U.copy(),))
+    ro_ = R.twice(f'vine:{vtype}.get_likelihood(read-only)', v.get_likelihood, (ro,))
+    if rw_ and ro_ and not same_result(rw_[0], ro_[0]):
+        R.r.violation(f'C20:vine:{vtype}.get_likelihood:read-only-argument-differs', f'vine:{vtype}.get_likelihood gives '
+                      f'{_sh(ro_[0])} for a read-only array and {_sh(rw_[0])} for the same values in a writeable array', case=R.case)
     R.twice(f'vine:{vtype}.sample', v.sample, (2,), reseed=lambda: v.set_random_state(5))
     d = v.to_dict()
     R.twice(f'vine:{vtype}.from_dict', VineCopula.from_dict, (d,), compare=False)
@@ -459,6 +490,10 @@ def _plots(R, dim):
                         case=R.case)
     elif res:
         r.violation(f'C20:plots:scatter_{dim}d:raises', f'{label}: raised {res[0].name}: {res[0].msg}', case=R.case)
+    # error paths: a call that is refused (wrong number of columns) leaves the caller's frame as it was
+    wrong = pd.DataFrame({c: base[c] for c in list(base)[:(dim + 1 if dim == 2 else dim - 1)]})
+    R.twice(f'plots:scatter_{dim}d(frame with {wrong.shape[1]} columns, refused)', scatter, (wrong,), compare=False)
+    R.twice(f'plots:compare_{dim}d(frames with {wrong.shape[1]} columns, refused)', compare, (wrong, wrong.copy()), compare=False)
     # frames whose row index is not 0..n-1 (a filtered table, a string index): every row is still a point of the figure
     for iname, index in (('filtered integer index', [3, 7, 9, 12]), ('string index', ['r1', 'r2', 'r3', 'r4'])):
         dfi = pd.DataFrame({c: base[c] for c in use}, index=index)
